@@ -295,20 +295,32 @@ Section Footprints.
     pres_step; [pres_tac|]. pres_step; [|pres_tac]. apply pres_modw. intros w. apply H.
   Qed.
 
-  Lemma send_msg_pres m : ins_all f [FSt; FRole; FNout; FJsout; FJout] -> pres f (send_msg c m).
+  Lemma send_tail_pres m w0 : ins_all f [FNout; FJsout; FJout] -> pres f (send_tail c m w0).
   Proof.
-    intros H. cbn in H. destruct H as [H1 [H2 [H3 [H4 [H5 _]]]]].
+    intros H. cbn in H. destruct H as [H3 [H4 [H5 _]]].
+    unfold send_tail. pres_step; [pres_tac|]. pres_step; [apply encode_pres; ins_auto|].
+    pres_step; [pres_tac|]. pres_step; [pres_tac|]. pres_step; [pres_tac|].
+    apply persist_out_pres. ins_auto.
+  Qed.
+
+  Lemma send_gate_pres m w0 : ins_all f [FSt; FRole] -> pres f (send_gate m w0).
+  Proof.
+    intros H. cbn in H. destruct H as [H1 [H2 _]].
     assert (Hs : forall s, s <> ST_ACTIVE -> pres f (state_set s)).
     { intros s Hs. unfold state_set. pres_step; [|pres_tac]. apply pres_modw. intros w.
       destruct (s =? ST_ACTIVE) eqn:E; [lia|]. apply H1. }
-    unfold send_msg. pres_step; [pres_tac|]. pres_step.
-    { destruct (st a <? ST_NCE); [pres_tac|]. destruct (st a =? ST_NCE).
-      - destruct (mkind m); try solve [pres_tac];
-          (pres_step; [apply Hs; unfold ST_LOGON_SENT, ST_ACTIVE; lia|]; apply pres_modw; intros w; apply H2).
-      - pres_tac. }
-    pres_step; [pres_tac|]. pres_step; [apply encode_pres; ins_auto|].
-    pres_step; [pres_tac|]. pres_step; [pres_tac|]. pres_step; [pres_tac|].
-    apply persist_out_pres. ins_auto.
+    unfold send_gate.
+    destruct (st w0 <? ST_NCE); [pres_tac|]. destruct (st w0 =? ST_NCE).
+    - destruct (mkind m); try solve [pres_tac];
+        (pres_step; [apply Hs; unfold ST_LOGON_SENT, ST_ACTIVE; lia|]; apply pres_modw; intros w; apply H2).
+    - pres_tac.
+  Qed.
+
+  Lemma send_msg_pres m : ins_all f [FSt; FRole; FNout; FJsout; FJout] -> pres f (send_msg c m).
+  Proof.
+    intros H. cbn in H. destruct H as [H1 [H2 [H3 [H4 [H5 _]]]]].
+    unfold send_msg. pres_step; [pres_tac|]. pres_step; [apply send_gate_pres; ins_auto|].
+    apply send_tail_pres; ins_auto.
   Qed.
 
   Lemma send_test_req_pres now :
@@ -483,14 +495,17 @@ Section Events.
     - cbn. now inversion 1.
   Qed.
 
-  Lemma send_msg_allev m :
-    P (State ST_LOGON_SENT) -> (forall tags, P (Wire (mkMsg (mtype m) tags))) -> allev P (send_msg c m).
+  Lemma send_gate_allev m w0 : P (State ST_LOGON_SENT) -> allev P (send_gate m w0).
   Proof.
-    intros H1 H2. unfold send_msg.
-    allev_step; [allev_tac|]. allev_step.
-    { destruct (st a <? ST_NCE); [allev_tac|]. destruct (st a =? ST_NCE); [|allev_tac].
-      destruct (mkind m); try solve [allev_tac];
-        (allev_step; [apply state_set_allev; auto | allev_tac]). }
+    intros H1. unfold send_gate.
+    destruct (st w0 <? ST_NCE); [allev_tac|]. destruct (st w0 =? ST_NCE); [|allev_tac].
+    destruct (mkind m); try solve [allev_tac];
+      (allev_step; [apply state_set_allev; auto | allev_tac]).
+  Qed.
+
+  Lemma send_tail_allev m w0 : (forall tags, P (Wire (mkMsg (mtype m) tags))) -> allev P (send_tail c m w0).
+  Proof.
+    intros H2. unfold send_tail.
     allev_step; [allev_tac|].
     apply allev_bind_post with (Q := fun sm => mtype (snd sm) = mtype m);
       [apply encode_allev | intros; eapply encode_mtype; eauto |].
@@ -498,6 +513,13 @@ Section Events.
     allev_step; [allev_tac|]. allev_step; [allev_tac|].
     allev_step; [|apply persist_out_allev].
     apply allev_emit. destruct wm as [t tags]. cbn in Hm. subst t. apply H2.
+  Qed.
+
+  Lemma send_msg_allev m :
+    P (State ST_LOGON_SENT) -> (forall tags, P (Wire (mkMsg (mtype m) tags))) -> allev P (send_msg c m).
+  Proof.
+    intros H1 H2. unfold send_msg.
+    allev_step; [allev_tac|]. allev_step; [apply send_gate_allev; auto|]. apply send_tail_allev; auto.
   Qed.
 
   Lemma send_test_req_allev now :
